@@ -33,6 +33,8 @@ func c01Corpus(r *Run) []*pipeline.Case {
 		if r.thorough() || i%2 == 0 {
 			c := separate(e, i%4 == 0)
 			c.DottedPath = i%4 == 2
+			c.SameName = i%8 == 6
+			c.ForeignGoPackage = i%8 == 0
 			cases = append(cases, c)
 		}
 	}
